@@ -17,7 +17,10 @@ submitting thread, exactly like concurrent.futures.
 The futures are real concurrent.futures.Future objects.
 """
 import sys
+from collections import deque
 from concurrent import futures as _cf
+
+import greenlet
 
 
 class SimFuture(_cf.Future):
@@ -33,7 +36,7 @@ class SimFuture(_cf.Future):
 class Job:
     def __init__(self, fut, fn, args, c):
         self.fut, self.fn, self.args, self.c = fut, fn, args, c
-        self.state = "queued"        # queued -> running -> handled -> finished | cancelled
+        self.state = "queued"        # queued -> running -> handled -> finishing -> finished | cancelled
         self.result = None
 
 
@@ -65,10 +68,10 @@ class SimExecutor:
         return [j for j in self.jobs if j.state == "queued"]
 
     def running(self):
-        return [j for j in self.jobs if j.state in ("running", "handled")]
+        return [j for j in self.jobs if j.state in ("running", "handled", "finishing")]
 
     def unfinished(self):
-        return [j for j in self.jobs if j.state in ("queued", "running", "handled")]
+        return [j for j in self.jobs if j.state in ("queued", "running", "handled", "finishing")]
 
     def job(self, c, states):
         for j in self.jobs:
@@ -111,11 +114,12 @@ class SimExecutor:
 
     def finish(self, c):
         j = self.job(c, ("handled",))
-        j.state = "finished"
+        j.state = "finishing"               # the pool thread is busy until the callbacks are done
         if j.result[0] == "ok":
             j.fut.set_result(j.result[1])
         else:
             j.fut.set_exception(j.result[1])
+        j.state = "finished"
         self.owner.emit("finish", c)
 
     def cancel(self, c):
@@ -126,21 +130,40 @@ class SimExecutor:
 
 
 class SimLock:
-    """stand-in for the worker's RLock: entering it from the main thread (outermost level) is an
-    injection point named after the function that takes it"""
+    """stand-in for the worker's RLock.  Entering it from the main thread (outermost level) is an
+    injection point named after the function that takes it.  In the fine-grained mode pool jobs
+    run as greenlets: the lock then really excludes -- a pool greenlet that finds it taken yields
+    as `blocked`, and the main thread that finds it taken by a suspended pool greenlet runs that
+    greenlet until it releases (owner.run_until_unlocked)."""
 
     def __init__(self, owner):
         self.owner = owner
         self.depth = 0
+        self.holder = None           # greenlet that holds the lock
 
     def acquire(self, *a, **k):
-        if self.depth == 0:
-            self.owner.ip("lock:" + sys._getframe(2 if k.get("_ctx") else 1).f_code.co_name)
-        self.depth += 1
+        me = greenlet.getcurrent()
+        if self.holder is me and self.depth > 0:
+            self.depth += 1
+            return True
+        fn = sys._getframe(2 if k.get("_ctx") else 1).f_code.co_name
+        if self.owner.is_main(me):
+            self.owner.ip("lock:" + fn)
+            while self.depth > 0 and self.holder is not me:
+                self.owner.run_until_unlocked(self.holder)
+        else:
+            self.owner.vop("lock")
+            while self.depth > 0 and self.holder is not me:
+                self.owner.pool_blocked()
+        self.holder = me
+        self.depth = 1
         return True
 
     def release(self):
         self.depth -= 1
+        if self.depth == 0:
+            self.holder = None
+            self.owner.vop("unlock")
 
     def __enter__(self):
         self.acquire(_ctx=True)
@@ -175,3 +198,24 @@ class FuturesShim:
         done = set(f for f in fs if f.done())
         self.owner.emit(kind, 0, str(len(done)))
         return _cf._base.DoneAndNotDoneFutures(done, set(fs) - done)
+
+
+class VDeque(deque):
+    """worker._keep in the fine-grained mode: its mutations are visible operations"""
+    owner = None
+
+    def append(self, x):
+        self.owner.vop("keep:append")
+        super().append(x)
+
+    def appendleft(self, x):
+        self.owner.vop("keep:appendleft")
+        super().appendleft(x)
+
+    def popleft(self):
+        self.owner.vop("keep:popleft")
+        return super().popleft()
+
+    def remove(self, x):
+        self.owner.vop("keep:remove")
+        super().remove(x)
